@@ -119,9 +119,11 @@ example : let s : St := { role := .controlled, state := .checking, remotes := []
 it takes a mapped address only from a Binding *success* response carrying the probe's own transaction id
 (holds since the `fix:` commit; before, any decodable datagram from the server's IP with an
 XOR-MAPPED-ADDRESS was taken). -/
-theorem probe_needs_own_transaction (tx resp : Bytes) (a : Addr) (h : probeAccept tx resp = some a) :
+theorem probe_needs_own_transaction (tx resp : Bytes) (a : Addr) (same : Bool) (h : probeAccept tx resp same = some a) :
     ∃ d, decode resp = .ok d ∧ d.tx = tx ∧ d.cls = .success ∧ d.method = .binding ∧ d.mapped = some a := by
   unfold probeAccept at h
+  split at h
+  · simp at h
   split at h
   · rename_i d hd
     split at h
